@@ -59,12 +59,13 @@ def install(eng, c, runner):
         except PyExc as ex_:
             if ex_.cls == "AssumeFailed":
                 raise
+            e.p.notes.append(f"outcome: {ex_.cls} {ex_.where}")
             return s_tuple([s_str("raise"), s_str(ex_.cls)])
 
     def f_es_outcome(e, args, kw):
         f = args[0]
         try:
-            v = e.merged(lambda: e.call(f, list(args[1:]), dict(kw)), e.merge_key('es_outcome', args, kw))
+            v = e.merged(lambda: e.call(f, list(args[1:]), dict(kw)), e.merge_key('es_outcome', args, kw), e.val_terms(args))
             return s_tuple([s_str("ret"), v])
         except PyExc as ex_:
             if ex_.cls in api.ES_TO_HOST:
@@ -119,7 +120,7 @@ def install(eng, c, runner):
     for k, v in list(ex.items()):
         ex[k] = s_py(v, "func")
     # harness types usable as values (fresh(JSVal))
-    for k in ("Str", "Int", "Bool", "Num", "Flt", "JSVal", "JSPrim", "JSArgs", "PyVal"):
+    for k in ("Str", "Int", "Bool", "Num", "Flt", "JSVal", "JSPrim", "JSArgs", "PyVal", "ValList"):
         ex[k] = s_py(getattr(api, k))
     # real singletons and classes by name
     ex["UNDEFINED"] = s_val(Val.VUndef)
@@ -150,7 +151,7 @@ def make_summary(eng, spec):
 
     def summ(e, args, kw):
         fv = spec_funcval(e, spec)
-        r = e.merged(lambda: e.call(fv, list(args), dict(kw)), e.merge_key('summary:' + spec.__name__, args, kw))
+        r = e.merged(lambda: e.call(fv, list(args), dict(kw)), e.merge_key('summary:' + spec.__name__, args, kw), e.val_terms(args))
         # representation independence: callers only learn the JS-level value of numbers
         rr = e.refine(r) if r.kind == "val" else r
         if rr.kind in ("int", "float") and getattr(spec, "__num_repr_free__", False):
